@@ -59,9 +59,15 @@ std::unique_ptr<ndsparse> splinetable<Alloc>::grideval(const DoubleContCont& coo
 		basist = cholmod_l_transpose(basis, 1, &cholmod_state);
 		cholmod_l_free_sparse(&basis, &cholmod_state);
 
-		slicemultiply(nd.get(), basist, i, &cholmod_state);
+		int err = slicemultiply(nd.get(), basist, i, &cholmod_state);
 
 		cholmod_l_free_sparse(&basist, &cholmod_state);
+		//a result which has not been multiplied along every dimension is
+		//not an evaluation of the table
+		if (err != 0) {
+			cholmod_l_finish(&cholmod_state);
+			throw std::runtime_error("Evaluation on the grid failed in dimension "+std::to_string(i));
+		}
 	}
 	
 	cholmod_l_finish(&cholmod_state);
